@@ -281,7 +281,7 @@ def prepare(ctx, coq_targets, drivers, allowed_axioms=()):
                 errs = [("make", log[-800:])]
             for where, msg in errs:
                 ctx.obligation_failure(where, msg)
-        if prop_vo.exists() and (ok or _fresh(prop_vo)):
+        if prop_vo.exists() and ok:
             res, raw = print_assumptions(prop, thms)
             if res is None:
                 ctx.obligation_failure(f"Properties/{prop}.v", "Print Assumptions run failed: " + raw[-400:])
